@@ -109,6 +109,9 @@ CParse(ms, op, args, st) ==
                 THEN CParse(rest, op, Tail(args),
                             [st EXCEPT !.pr[Head(args)] = IF op THEN @ \cup {m} ELSE @ \ {m}])
                 ELSE CParse(rest, op, args, st)
+         \* list modes (ban, ban exception, invite exception): not tracked, but they take their mask
+         [] m \in {"b", "e", "I"} ->
+              CParse(rest, op, IF args # <<>> THEN Tail(args) ELSE args, st)
          [] OTHER -> CParse(rest, op, args, st)
 
 -----------------------------------------------------------------------------
